@@ -155,8 +155,29 @@ def normal_family_case(dname, cfg, pname, rows, seed, tier):
         em = None
         if mean is not None:
             em = (mean[r] if ctx is not None else mean).reshape(-1).double().tolist()
+        # place the quadrature grid: standardise with the reported mean and the curvature of log_prob there (grid placement only;
+        # the integral of the re-parametrised density is the same number)
+        lp_std, em_std = lp_row, em
+        if em is not None:
+            try:
+                m0 = torch.tensor(em, dtype=torch.float64)
+                h = 1e-3
+                sig = []
+                for k in range(D):
+                    e = torch.zeros(D, dtype=torch.float64)
+                    e[k] = h
+                    with torch.no_grad():
+                        f0, fp, fm = (float(lp_row((m0 + t)[None])[0]) for t in (0 * e, e, -e))
+                    curv = (fp - 2 * f0 + fm) / h ** 2
+                    sig.append(1.0 / math.sqrt(-curv) if curv < 0 else 1.0)
+                sg = torch.tensor(sig, dtype=torch.float64)
+                if all(1e-6 < v < 1e6 for v in sig):
+                    lp_std = lambda U, m0=m0, sg=sg: lp_row(m0[None] + U * sg[None]) + float(torch.log(sg).sum())
+                    em_std = [0.0] * D
+            except Exception:
+                pass
         try:
-            out += [(cell + (":row%d" % r if r else ""), sym, msg) for cell, sym, msg in check_density("%s cfg=%s pattern=%s context row %d" % (dname, cfg, pname, r), lp_row, D, 60.0, tier, expect_mean=em)]
+            out += [(cell + (":row%d" % r if r else ""), sym, msg) for cell, sym, msg in check_density("%s cfg=%s pattern=%s context row %d" % (dname, cfg, pname, r), lp_std, D, 60.0, tier, expect_mean=em_std)]
         except Exception as e:
             out.append(("log_prob", "log_prob raises %s" % type(e).__name__, "%s cfg=%s: %s: %s" % (dname, cfg, type(e).__name__, str(e)[:100])))
             break
